@@ -17,6 +17,7 @@ from __future__ import annotations
 import copy
 import os
 import random
+import re
 import subprocess
 import time
 from base64 import b64encode
@@ -29,7 +30,7 @@ from btclib.bip32.bip32 import rootxprv_from_seed
 from btclib.descriptors import add_checksum, parse
 from btclib.descriptors import miniscript as MS
 from btclib.descriptors.descriptors import miniscript_solver
-from btclib.ecc import bms
+from btclib.ecc import bms, dsa, ssa
 from btclib.fee import FeeRate
 from btclib.psbt import psbt as psbt_mod
 from btclib.psbt.psbt import Psbt, extract_tx, finalize
@@ -88,6 +89,8 @@ SHAPES = [
     "wsh(pk(A))", "sh(pk(A))", "sh(wsh(pk(A)))", "sh(pkh(A))", "wsh(pkh(A))", "sh(wsh(pkh(A)))",
     "tr(A)", "tr(A,pk(B))", "tr(NUMS,pk(A))", "tr(A,{pk(B),pk(C)})", "tr(NUMS,{pk(A),{pk(B),pk(C)}})",
     "tr(NUMS,multi_a(K,N))", "tr(A,sortedmulti_a(K,N))", "tr(NUMS,{multi_a(K,N),pk(A)})",
+    # wide low-threshold leaves: many EMPTY signatures, which BIP342's sigops budget must not charge
+    "tr(NUMS,multi_a(W1_12))", "tr(NUMS,multi_a(W2_16))", "tr(A,sortedmulti_a(W1_20))",
     "tr(NUMS,and_v(v:pk(A),pk(B)))", "tr(NUMS,and_v(v:pk(A),older(5)))",
     "wsh(and_v(v:pk(A),pk(B)))", "wsh(or_d(pk(A),and_v(v:pk(B),older(5))))", "wsh(thresh(2,pk(A),s:pk(B),s:pk(C)))",
     "wsh(and_v(v:pk(A),after(500)))", "sh(wsh(or_b(pk(A),s:pk(B))))", "wsh(andor(pk(A),pk(B),and_v(v:pk(C),older(5))))",
@@ -150,6 +153,10 @@ def instantiate(rng, shape: str, parties):
         n = rng.randint(1, 3 if bare else (6 if "_a(" in s else 5))
         k = rng.randint(1, n)
         s = s.replace("K,N", ",".join([str(k)] + [rng.choice(parties).key(rng) for _ in range(n)]))
+    mw = re.search(r"W(\d+)_(\d+)", s)
+    if mw:
+        k, n = int(mw.group(1)), int(mw.group(2))
+        s = s.replace(mw.group(0), ",".join([str(k)] + [rng.choice(parties).key(rng) for _ in range(n)]))
     for letter in "ABC":
         for close in (")", ","):
             if letter + close in s:
@@ -407,7 +414,6 @@ def fintap_case(flow: Flow, i: int, mutate=None):
     """(line, impl answer) for `_finalized_taproot_input` on the signed psbt (optionally perturbed)"""
     psbt = copy.deepcopy(flow.signed)
     pin = psbt.inputs[i]
-    vk = vl = "1"
     if mutate == "ht":  # the signature says another hash type than the input asks for
         if pin.taproot_key_spend_signature:
             s = pin.taproot_key_spend_signature
@@ -419,13 +425,43 @@ def fintap_case(flow: Flow, i: int, mutate=None):
         if pin.taproot_key_spend_signature:
             s = pin.taproot_key_spend_signature
             pin.taproot_key_spend_signature = s[:40] + bytes([s[40] ^ 1]) + s[41:]
-            vk = "0"
         else:
             for k, s in list(pin.taproot_script_spend_signatures.items()):
                 pin.taproot_script_spend_signatures[k] = s[:40] + bytes([s[40] ^ 1]) + s[41:]
-            vl = "0"
     elif mutate == "dropkey":
         pin.taproot_key_spend_signature = b""
+    elif mutate == "wrongkey":  # a well-formed signature by ANOTHER key: only verification can tell
+        other = rng_key = 0x1234567 + i
+        if pin.taproot_key_spend_signature:
+            s0 = pin.taproot_key_spend_signature
+            ht0 = s0[64] if len(s0) == 65 else 0
+            try:
+                m0 = psbt_mod.taproot_sig_hash(psbt, i, hash_type=ht0)
+                pin.taproot_key_spend_signature = ssa.sign_(m0, other).serialize() + s0[64:]
+            except Exception:  # noqa: BLE001
+                pass
+        else:
+            for k, s0 in list(pin.taproot_script_spend_signatures.items()):
+                ht0 = s0[64] if len(s0) == 65 else 0
+                try:
+                    m0 = psbt_mod.taproot_sig_hash(psbt, i, leaf_hash=k[32:], hash_type=ht0)
+                    pin.taproot_script_spend_signatures[k] = ssa.sign_(m0, other).serialize() + s0[64:]
+                except Exception:  # noqa: BLE001
+                    pass
+    # what the model is told about the two `ssa.verify_` calls is a REAL verification of the signature it is given,
+    # under the key / leaf the finalizer would use, over the message `taproot_sig_hash` gives (= the model's: c10.sigmsg)
+    vk = vl = "0"
+    try:
+        if pin.taproot_key_spend_signature:
+            s0 = pin.taproot_key_spend_signature
+            m0 = psbt_mod.taproot_sig_hash(psbt, i, hash_type=(s0[64] if len(s0) == 65 else 0))
+            okey = bytes(flow.pouts[i].script_pub_key.script)[2:]
+            vk = "1" if ssa.verify_(m0, okey, s0[:64]) else "0"
+        for k, s0 in pin.taproot_script_spend_signatures.items():
+            m0 = psbt_mod.taproot_sig_hash(psbt, i, leaf_hash=k[32:], hash_type=(s0[64] if len(s0) == 65 else 0))
+            vl = "1" if ssa.verify_(m0, k[:32], s0[:64]) else "0"
+    except Exception:  # noqa: BLE001 - a hash type the message refuses: the finalizer refuses before verifying
+        pass
     sht = "." if pin.sig_hash_type is None else str(pin.sig_hash_type)
     ss = ",".join(f"{hx(bytes(k))}:{hx(bytes(v))}" for k, v in pin.taproot_script_spend_signatures.items()) or "."
     ls = ",".join(f"{hx(bytes(cb))}:{hx(bytes(s))}:{v}" for cb, (s, v) in pin.taproot_leaf_scripts.items()) or "."
@@ -484,10 +520,15 @@ def o_tamper(w):
     b, a = outs[:len(before)], outs[len(before):]
     for (name, i, _ln, verdict, own, _v), after in zip(cases, a):
         committed = own or after != b[i]
+        cls = re.sub(r"\d+", "", name)
+        if name.startswith(("in", "prevout")) and not name.startswith(f"in{i}.") and not name.startswith(f"prevout{i}."):
+            cls = "other_" + cls
+        kind = "taproot" if w["shapes"][i].startswith("tr(") else "ecdsa"
+        tag = f"{cls}|{kind}|ht={w['hts'][i]}"
         if committed and verdict == "ok":
-            return False, f"{name}: input {i} ({w['shapes'][i]}, ht {w['hts'][i]}) commits to it but the engine still accepts"
+            return False, f"{tag}: {name}: input {i} ({w['shapes'][i]}) commits to it (C09 model digest changes) but the engine still accepts"
         if not committed and verdict != "ok":
-            return False, f"{name}: input {i} ({w['shapes'][i]}, ht {w['hts'][i]}) does not commit to it but the engine rejects"
+            return False, f"{tag}: {name}: input {i} ({w['shapes'][i]}) does not commit to it but the engine rejects"
     return True, ""
 
 
@@ -547,7 +588,129 @@ def o_bip322(w):
     return True, ""
 
 
-ORACLES = {"closure": o_closure, "tamper": o_tamper, "bms": o_bms, "bip322": o_bip322}
+def _pof(msg, addr, q, lying_spk=None):
+    """a BIP322 proof-of-funds signature (a finalized psbt of `to_sign`) made with key q for `addr`; with `lying_spk` the
+    psbt's own utxo field claims that script for the first input instead of the challenge `to_spend` pays to"""
+    from btclib.script.taproot import output_prvkey
+    psbt = bip322.to_sign_psbt(msg, addr)
+    spend = psbt.inputs[0].non_witness_utxo
+    spk = lying_spk if lying_spk is not None else bytes(spend.vout[0].script_pub_key.script)
+    if lying_spk is not None or spk[:1] in (b"\x00", b"\x51"):
+        psbt.inputs[0].witness_utxo = TxOut(0, ScriptPubKey(spk, check_validity=False))
+    if lying_spk is not None:
+        psbt.inputs[0].non_witness_utxo = None
+    pub = pub_keyinfo_from_prv_key(q)[0]
+    if is_p2tr(spk):
+        m = psbt_mod.taproot_sig_hash(psbt, 0)
+        psbt.inputs[0].taproot_key_spend_signature = ssa.sign_(m, output_prvkey(q)).serialize()
+    else:
+        if is_p2sh(spk):
+            psbt.inputs[0].redeem_script = b"\x00\x14" + __import__("btclib.hashes", fromlist=["hash160"]).hash160(pub)
+        m = psbt_mod.ecdsa_sig_hash(psbt, 0)
+        psbt.inputs[0].partial_sigs[pub] = dsa.sign_(m, q).serialize() + b"\x01"
+    return bip322.Sig(finalize(psbt))
+
+
+def o_bip322_pof(w):
+    """proof-of-funds variant: verifies for the signer's address only -- also when the psbt LIES about what its first
+    input spends (the verifier must rebuild `to_spend` from the message and the address, never read it off the psbt)"""
+    _wif, pairs, msg = bip322_cases(w)
+    q = w["q"]
+    spk_of = lambda a: bytes(ScriptPubKey.from_address(a).script)  # noqa: E731
+    for n, (a, o) in enumerate(pairs):
+        sig = _pof(msg, a, q)
+        if sig.variant != bip322.PROOF_OF_FUNDS:
+            return False, "bip322.pof: not a proof-of-funds payload"
+        if not bip322.verify(msg, a, sig) or not bip322.verify(msg, a, sig.b64encode()):
+            return False, f"bip322.pof: proof does not verify for its own address {a}"
+        if bip322.verify(msg, o, sig):
+            return False, f"bip322.pof: proof verifies for another key's address {o}"
+        if bip322.verify(msg + b"x", a, sig):
+            return False, "bip322.pof: proof verifies for another message"
+        if n >= 1:  # p2sh-p2wpkh, p2wpkh, p2tr: a witness utxo can be claimed without the transaction it belongs to
+            try:
+                forged = _pof(msg, o, q, lying_spk=spk_of(a))
+            except Exception:  # noqa: BLE001 - the library refusing to build the lie is fine
+                continue
+            if bip322.verify(msg, o, forged) or bip322.verify(msg, o, forged.b64encode()):
+                return False, (f"bip322.pof: a proof signed by one key, whose psbt claims that key's script as the spent "
+                               f"output, verifies for ANOTHER key's address {o}")
+    return True, ""
+
+
+ORACLES = {"closure": o_closure, "tamper": o_tamper, "bms": o_bms, "bip322": o_bip322, "bip322_pof": o_bip322_pof}
+
+
+# ------------------------------------------------------------------ signature-level mutations of a finished input
+N_SECP = 0xFFFFFFFFFFFFFFFFFFFFFFFFFFFFFFFEBAAEDCE6AF48A03BBFD25E8CD0364141
+
+
+def _der(r: int, s: int, pad_r: int = 0) -> bytes:
+    def enc(v, pad=0):
+        b = v.to_bytes((v.bit_length() + 7) // 8 or 1, "big")
+        if b[0] & 0x80:
+            b = b"\x00" + b
+        b = b"\x00" * pad + b
+        return b"\x02" + bytes([len(b)]) + b
+    body = enc(r, pad_r) + enc(s)
+    return b"\x30" + bytes([len(body)]) + body
+
+
+def sig_mutations(sig: bytes, taproot: bool):
+    """(name, mutated signature element)"""
+    out = [("empty", b""), ("truncated", sig[:-2]), ("bitflip", sig[:10] + bytes([sig[10] ^ 4]) + sig[11:])]
+    if taproot:
+        out += [("explicit_default", sig[:64] + b"\x00"), ("63_bytes", sig[:63]), ("66_bytes", sig[:64] + b"\x01\x01"),
+                ("undefined_type", sig[:64] + b"\x04"), ("other_type", sig[:64] + (b"\x02" if sig[64:] != b"\x02" else b"\x01"))]
+    else:
+        try:
+            d = dsa.Sig.parse(sig[:-1])
+            out += [("high_s", _der(d.r, N_SECP - d.s) + sig[-1:]), ("padded_r", _der(d.r, d.s, pad_r=1) + sig[-1:]),
+                    ("undefined_type", sig[:-1] + b"\x04"), ("type_0", sig[:-1] + b"\x00"),
+                    ("trailing", sig[:-1] + b"\x00" + sig[-1:])]
+        except Exception:  # noqa: BLE001
+            pass
+    return out
+
+
+def mutsig_cases(flow: Flow, rng, per_input=3):
+    """[(line, engine verdict)]: one signature element of a finished input replaced (or an annex appended); the composed
+    Lean checker's parsing / hash-type / size / annex paths against btclib's engine, under the default and every flag"""
+    cases = []
+    for i, tin in enumerate(flow.tx.vin):
+        spk = bytes(flow.pouts[i].script_pub_key.script)
+        wit = [bytes(x) for x in tin.script_witness.stack]
+        taproot = is_p2tr(spk)
+        muts = []
+        if wit:
+            idx = [j for j, e in enumerate(wit) if (len(e) in (64, 65) if taproot else (e[:1] == b"\x30" and 60 <= len(e) <= 73))]
+            if taproot and len(wit) >= 2:
+                idx = [j for j in idx if j < len(wit) - 2]
+            for j in idx[:1]:
+                for name, m in sig_mutations(wit[j], taproot):
+                    muts.append((name, None, wit[:j] + [m] + wit[j + 1:]))
+            if taproot:
+                muts.append(("annex", None, wit + [b"\x50\x01\x02"]))
+                muts.append(("annex_only_marker", None, wit + [b"\x50"]))
+        else:
+            ss = bytes(tin.script_sig)
+            if ss and ss[0] < 76 and ss[1:2] == b"\x30" and len(ss) > ss[0]:
+                sig, rest = ss[1:1 + ss[0]], ss[1 + ss[0]:]
+                for name, m in sig_mutations(sig, False):
+                    if len(m) < 76:
+                        muts.append((name, (bytes([len(m)]) if m else b"\x00") + m + rest if m else b"\x00" + rest, None))
+        rng.shuffle(muts)
+        for name, new_ss, new_wit in muts[:per_input]:
+            t2 = copy.deepcopy(flow.tx)
+            if new_wit is not None:
+                t2.vin[i].script_witness = Witness(new_wit)
+            else:
+                t2.vin[i].script_sig = new_ss
+            td = tx_dict(t2)
+            for fname, flags, mask in (FLAG_SETS[0], FLAG_SETS[1]):
+                cases.append((f"verdict {mask} {i} {tok_tx(td)} {outs_tok(flow.pouts)}",
+                              engine_verdict(flow.pouts, t2, i, flags).split(" ")[0], name))
+    return cases
 
 
 # ------------------------------------------------------------------ run
@@ -572,12 +735,26 @@ def run(ctx):
     # every shape at least once on its own, under a rotating hash type
     for k, sh in enumerate(SHAPES):
         specs.append(flow_spec(rng, k, [sh]))
+    # every hash type on an input that has a NEIGHBOUR: "the sequence / outpoint / spent output of ANOTHER input" is then
+    # in the tamper matrix for each type (taproot NONE / SINGLE without ANYONECANPAY still commit to every sequence)
+    for ht in TAP_HTS:
+        specs.append({"seed": rng.getrandbits(48), "shapes": [rng.choice(["tr(A)", "tr(NUMS,pk(A))", "tr(A,pk(B))"]),
+                                                               rng.choice(["wpkh(A)", "pkh(A)", "tr(A)"])],
+                      "hts": [ht or rng.choice([None, 0]), None], "v2": rng.random() < 0.4, "builder": False,
+                      "request": False, "outs_ge_ins": True})
+    for ht in ECDSA_HTS:
+        specs.append({"seed": rng.getrandbits(48), "shapes": [rng.choice(["wpkh(A)", "pkh(A)", "wsh(multi(K,N))", "sh(wpkh(A))"]),
+                                                               rng.choice(["tr(A)", "wpkh(A)"])],
+                      "hts": [ht, None], "v2": rng.random() < 0.4, "builder": False, "request": False,
+                      "outs_ge_ins": True})
     while len(specs) < n_flows:
         specs.append(flow_spec(rng, len(specs)))
     fin_cases, fintap_cases, msg_cases, verdict_cases, tamper_verdict = [], [], [], [], []
     n_tamper = 0
     budget_verdict = ctx.n(260, 8000)
     budget_tv = ctx.n(150, 5000)
+    budget_mut = ctx.n(160, 4000)
+    mutsig = []
     for no, spec in enumerate(specs):
         ok = ctx.check("closure", spec, key="closure." + "+".join(sorted(set(s.split("(")[0] for s in spec["shapes"]))))
         if not ok:
@@ -598,7 +775,7 @@ def run(ctx):
                 generic = solver(flow.signed, i) is None
                 if generic:
                     fintap_cases.append(fintap_case(flow, i))
-                    fintap_cases.append(fintap_case(flow, i, rng.choice(["ht", "sig", "dropkey"])))
+                    fintap_cases.append(fintap_case(flow, i, rng.choice(["ht", "sig", "dropkey", "wrongkey"])))
             elif pin.partial_sigs:
                 fin_cases.append((fin_line(pin, spk), None))
                 # perturbed finalizer inputs: fewer / reordered / foreign signatures, a missing utxo, a missing script
@@ -626,8 +803,13 @@ def run(ctx):
                     verdict_cases.append((f"verdict {mask} {i} {tok_tx(txd)} {outs_tok(flow.pouts)}",
                                           engine_verdict(flow.pouts, flow.tx, i, flags)))
         # the tamper matrix
-        if ctx.check("tamper", spec, key="tamper." + "+".join(sorted(set(s.split("(")[0] for s in spec["shapes"])))):
-            pass
+        t_ok, t_detail = o_tamper(spec)
+        ctx.oracle("tamper", t_ok, t_detail, key="tamper." + (t_detail.split(":")[0] if not t_ok else "ok"),
+                   witness={"oracle": "tamper", "witness": spec})
+        if len(mutsig) < budget_mut:
+            for ln, v, name in mutsig_cases(flow, rng):
+                mutsig.append((ln, v))
+                ctx.count("mutsig", name + ":" + v)
         before, cases = tamper_cases(flow)
         n_tamper += len(cases)
         for c in cases:
@@ -651,12 +833,14 @@ def run(ctx):
     ctx.correspond("c10.sigmsg", EXE, msg_cases)
     ctx.correspond("c10.verdict", EXE, verdict_cases, nontrivial=lambda ln, out: True)
     ctx.correspond("c10.tamper.verdict", EXE, tamper_verdict, nontrivial=lambda ln, out: True)
+    ctx.correspond("c10.mutsig.verdict", EXE, mutsig, nontrivial=lambda ln, out: True)
     # message signatures
     for _ in range(ctx.n(12, 200)):
         w = {"q": rng.randrange(1, 2**255), "q2": rng.randrange(1, 2**255),
              "msg": common.rand_bytes(rng, rng.choice([0, 1, 5, 32, 100])).hex()}
         ctx.check("bms", w)
         ctx.check("bip322", w)
+        ctx.check("bip322_pof", w)
         if ctx.tier == "thorough" or _ < 4:
             wif, pairs, msg = bip322_cases(w)
             cases = []
